@@ -138,9 +138,10 @@ fn call(
 }
 
 /// Complete decision table. Structure (presence of admin / bound, scope variant,
-/// presented shape) is enumerated concretely: 2 x 2 x 2 x 4 = 32 calls; the hash
-/// ids, the database name and the relation are symbolic.
-fn decision_table(with_admin: bool) {
+/// presented shape) is enumerated concretely: 2 x 2 x 2 x 4 = 32 calls (split over
+/// harnesses by admin presence and scope); the hash ids, the database name and
+/// the relation are symbolic.
+fn decision_table(with_admin: bool, scope_lo: usize, scope_hi: usize) {
     fresh_relation();
     LazyLock::force(&TIMING_DUMMY);
     let a = any_hash_id();
@@ -160,8 +161,8 @@ fn decision_table(with_admin: bool) {
     while bi < 2 {
         let bound_id = if bi == 1 { Some(b) } else { None };
         let bound = if bi == 1 { Some(&hb) } else { None };
-        let mut si = 0;
-        while si < 2 {
+        let mut si = scope_lo;
+        while si < scope_hi {
             let root = si == 0;
             let scope = if root { Scope::Root } else { Scope::Database(name) };
             let mut ki = 0;
@@ -170,9 +171,10 @@ fn decision_table(with_admin: bool) {
                 let r = call(admin, bound, scope, presented);
                 let want_admin = spec_admin(admin_id, presented);
                 let want_db = spec_database(admin_id, bound_id, root, presented);
+                // named first: the property's own sentence; it is also a consequence of database_iff
+                assert!(!(root && is_database(&r)), "OBL:C14.authz.database_never_root");
                 assert!(is_admin(&r) == want_admin, "OBL:C14.authz.admin_iff");
                 assert!(is_database(&r) == want_db, "OBL:C14.authz.database_iff");
-                assert!(!(root && is_database(&r)), "OBL:C14.authz.database_never_root");
                 assert!(
                     r.is_ok() || is_the_rejection(&r, &reference),
                     "OBL:C14.authz.rejection_fixed"
@@ -190,29 +192,38 @@ fn decision_table(with_admin: bool) {
     kani::cover!(true, "COVER:reach");
 }
 
-/// Admin key configured (the authenticated instance).
+/// Admin key configured (the authenticated instance), root scope `POST /`.
 #[kani::proof]
 #[kani::unwind(34)]
 #[kani::stub(super::ApiKeyHash::verify, stub_verify)]
 #[kani::stub(super::ApiKeyHash::from_key, stub_from_key)]
-fn c14_authz_table_admin_configured() {
-    decision_table(true);
+fn c14_authz_table_admin_root() {
+    decision_table(true, 0, 1);
 }
 
-/// No admin key configured (rule 1: the unauthenticated instance).
+/// Admin key configured, database scope `POST /{db_name}`.
+#[kani::proof]
+#[kani::unwind(34)]
+#[kani::stub(super::ApiKeyHash::verify, stub_verify)]
+#[kani::stub(super::ApiKeyHash::from_key, stub_from_key)]
+fn c14_authz_table_admin_database() {
+    decision_table(true, 1, 2);
+}
+
+/// No admin key configured (rule 1: the unauthenticated instance), both scopes.
 #[kani::proof]
 #[kani::unwind(34)]
 #[kani::stub(super::ApiKeyHash::verify, stub_verify)]
 #[kani::stub(super::ApiKeyHash::from_key, stub_from_key)]
 fn c14_authz_table_no_admin() {
-    decision_table(false);
+    decision_table(false, 0, 2);
 }
 
 /// Uniform rejection, relational over two calls that differ only in the binding
 /// of the addressed database: bound to a key the caller does not hold versus
 /// unbound / nonexistent (both reach `authorize` as `bound = None`, and the
 /// database name is symbolic and different in the two calls). The caller must
-/// observe the same outcome. At the root scope the binding must not matter at all.
+/// observe the same outcome.
 #[kani::proof]
 #[kani::unwind(34)]
 #[kani::stub(super::ApiKeyHash::verify, stub_verify)]
@@ -229,31 +240,45 @@ fn c14_authz_uniform_rejection() {
     let name_bound = any_db_name(&mut buf1);
     let name_other = any_db_name(&mut buf2);
 
-    let mut si = 0;
-    while si < 2 {
-        let root = si == 0;
-        let mut ki = 0;
-        while ki < 4 {
-            let presented = PRESENTED[ki];
-            let s1 = if root { Scope::Root } else { Scope::Database(name_bound) };
-            let s0 = if root { Scope::Root } else { Scope::Database(name_other) };
-            let with_binding = call(Some(&ha), Some(&hb), s1, presented);
-            let without = call(Some(&ha), None, s0, presented);
-            if !verifies(Some(b), presented) {
-                // "bound to another key" is indistinguishable from "unbound / does not exist"
-                assert!(same_outcome(&with_binding, &without), "OBL:C14.authz.uniform_rejection");
-                kani::cover!(with_binding.is_err() && !root && presented.is_some(), "COVER:wrong_key_vs_unbound");
-            }
-            if with_binding.is_err() {
-                assert!(same_outcome(&with_binding, &without), "OBL:C14.authz.uniform_rejection");
-            }
-            if root {
-                assert!(same_outcome(&with_binding, &without), "OBL:C14.authz.root_ignores_binding");
-                kani::cover!(verifies(Some(b), presented) && with_binding.is_err(), "COVER:db_key_rejected_at_root");
-            }
-            ki += 1;
+    let mut ki = 0;
+    while ki < 4 {
+        let presented = PRESENTED[ki];
+        let with_binding = call(Some(&ha), Some(&hb), Scope::Database(name_bound), presented);
+        let without = call(Some(&ha), None, Scope::Database(name_other), presented);
+        // "bound to another key" is indistinguishable from "unbound / does not exist";
+        // and whenever the bound database rejects, the unbound one rejects identically
+        if !verifies(Some(b), presented) || with_binding.is_err() {
+            assert!(same_outcome(&with_binding, &without), "OBL:C14.authz.uniform_rejection");
+            kani::cover!(with_binding.is_err() && presented.is_some(), "COVER:wrong_key_vs_unbound");
+            kani::cover!(is_admin(&with_binding), "COVER:admin_either_way");
         }
-        si += 1;
+        ki += 1;
+    }
+    kani::cover!(true, "COVER:reach");
+}
+
+/// At the root scope the binding must not matter at all, whatever it verifies:
+/// `bound` is never consulted for `Scope::Root`.
+#[kani::proof]
+#[kani::unwind(34)]
+#[kani::stub(super::ApiKeyHash::verify, stub_verify)]
+#[kani::stub(super::ApiKeyHash::from_key, stub_from_key)]
+fn c14_authz_root_ignores_binding() {
+    fresh_relation();
+    LazyLock::force(&TIMING_DUMMY);
+    let a = any_hash_id();
+    let b = any_hash_id();
+    let ha = hash_with_id(a);
+    let hb = hash_with_id(b);
+
+    let mut ki = 0;
+    while ki < 4 {
+        let presented = PRESENTED[ki];
+        let with_binding = call(Some(&ha), Some(&hb), Scope::Root, presented);
+        let without = call(Some(&ha), None, Scope::Root, presented);
+        assert!(same_outcome(&with_binding, &without), "OBL:C14.authz.root_ignores_binding");
+        kani::cover!(verifies(Some(b), presented) && with_binding.is_err(), "COVER:db_key_rejected_at_root");
+        ki += 1;
     }
     kani::cover!(true, "COVER:reach");
 }
